@@ -815,6 +815,32 @@ func (g *Grammar) evalSSA(fn *ssa.Function, v ssa.Value, args []*AVal, seen map[
 
 func (g *Grammar) evalCall(fn *ssa.Function, c *ssa.Call, args []*AVal, seen map[ssa.Value]bool, depth int) *AVal {
 	callee := c.Call.StaticCallee()
+	if c.Call.IsInvoke() {
+		// a method called through an interface (`num.negated()`): the method
+		// of each node kind the receiver can be
+		out := newAVal()
+		if c.Call.Method.Pkg() == nil || c.Call.Method.Pkg().Path() != pkgAST || depth > 4 {
+			return out
+		}
+		recv := g.evalSSA(fn, c.Call.Value, args, seen, depth)
+		for _, sh := range recv.Nodes {
+			if sh.Nil || sh.T == nil {
+				continue
+			}
+			m := fn.Prog.LookupMethod(types.NewPointer(sh.T), c.Call.Method.Pkg(), c.Call.Method.Name())
+			if m == nil || m.Blocks == nil {
+				continue
+			}
+			one := newAVal()
+			one.Nodes.add(sh)
+			cargs := []*AVal{one}
+			for _, a := range c.Call.Args {
+				cargs = append(cargs, g.evalSSA(fn, a, args, seen, depth))
+			}
+			out.merge(g.callCtor(m, cargs, depth+1))
+		}
+		return out
+	}
 	if callee == nil || fnPkgPath(callee) != pkgAST {
 		return newAVal()
 	}
@@ -831,8 +857,11 @@ func filterByType(in ShapeSet, t types.Type) ShapeSet {
 		if s.Nil {
 			continue
 		}
-		if types.IsInterface(t) {
-			out.add(s)
+		if it, ok := t.Underlying().(*types.Interface); ok {
+			// an interface: the node kinds that implement it
+			if s.T == nil || types.Implements(types.NewPointer(s.T), it) {
+				out.add(s)
+			}
 			continue
 		}
 		if pt, ok := t.(*types.Pointer); ok && pt.Elem() == types.Type(s.T) {
